@@ -10,6 +10,7 @@ mod model;
 mod pred;
 mod sent;
 mod tabulate;
+mod threads;
 mod util;
 
 use std::io::{BufRead, Write};
@@ -26,6 +27,7 @@ fn main() {
             let thorough = tier == "thorough";
             match family.as_str() {
                 "C01" => gen_pred::gen_c01(&mut out, thorough, seed),
+                "C08" => gen_pred::gen_c08(&mut out, thorough, seed),
                 "C06" => gen_pred::gen_c06(&mut out, thorough, seed),
                 "C02" => gen_sent::gen_c02(&mut out, thorough, seed),
                 "C03" => gen_sent::gen_c03(&mut out, thorough, seed),
@@ -57,6 +59,12 @@ fn main() {
                 }
             }
             out.flush().unwrap();
+        }
+        Some("threads") => {
+            util::silence_panics();
+            let thorough = args.get(2).map(String::as_str) == Some("thorough");
+            let seed: u64 = args.get(3).and_then(|s| s.parse().ok()).unwrap_or(1);
+            threads::run(thorough, seed);
         }
         Some("tabulate") => tabulate::run(args.get(2).map(String::as_str).unwrap_or("")),
         _ => {
